@@ -20,8 +20,8 @@ import (
 // This file is added to package raftexample by the verification overlay only.  It assembles a
 // RaftNode the way NewRaftNode/startRaft do, minus the two parts the simulator replaces: the
 // raft.Node goroutine wrapper (a RawNode adapter is plugged into rc.Node) and the network
-// (the rafthttp transport stays un-started, so Send is a no-op and the simulator routes
-// rd.Messages itself).
+// (the rafthttp transport gets do-nothing stub peers - see rafthttp/verif_hook.go - so Send is
+// a no-op and the simulator routes rd.Messages itself).
 
 // VerifNode adapts a raft.RawNode to the raft.Node interface used by RaftNode.
 type VerifNode struct {
@@ -121,6 +121,18 @@ func VerifNewRaftNode(id int, peers []string, dir string, getSnapshot func() ([]
 		ServerStats: stats.NewServerStats("", ""),
 		LeaderStats: stats.NewLeaderStats(zap.NewNop(), "1"),
 		ErrorC:      make(chan error),
+	}
+	// startRaft: rc.transport.Start() and AddPeer for every configured peer but this node.  The
+	// peers are do-nothing stubs (the simulator carries the messages), so that applying a
+	// membership change can call the real AddPeer / RemovePeer.
+	var pids []types.ID
+	for i := range rc.Peers {
+		if i+1 != rc.id {
+			pids = append(pids, types.ID(i+1))
+		}
+	}
+	if err := rc.transport.VerifStubPeers(pids...); err != nil {
+		return nil, nil, nil, err
 	}
 	// prologue of serveChannels
 	sn, err := rc.raftStorage.Snapshot()
